@@ -220,11 +220,20 @@ class ExprMixin:
                     if r[0] == "method":
                         return k(st, VPy("bound", attr, base))
                     if r[0] == "const":
+                        over = [] if base.exact else [c for c in ci.all_subclasses() if attr in c.consts]
+                        if over or ("class_attr:" + attr) in self.reg.specfns:
+                            hk = self.reg.specfns.get("class_attr:" + attr)
+                            if hk is None:
+                                raise Unsupported(f"class attribute {base.cls}.{attr} is overridden in subclasses "
+                                                  f"({[c.name for c in over][:3]}): needs a class_attr hook")
+                            return k(st, hk(self, st, base))
                         return k(st, self.eval_const_expr(r[1], r[2].module))
             if self.find_contract_for_ext(base.cls, attr) is not None:
                 return k(st, VPy("bound", attr, base))
             if attr == "get" and base.cls in self.reg.models:
                 return k(st, VPy("bound", attr, base))
+            if ("class_attr:" + attr) in self.reg.specfns:
+                return k(st, self.reg.specfns["class_attr:" + attr](self, st, base))
             raise Unsupported(f"attribute {base.cls}.{attr} has no model ({where})")
         if isinstance(base, VPy):
             if base.what == "module":
@@ -498,7 +507,8 @@ class ExprMixin:
         return c[0]
 
     def hint_elem_kind(self, node, vs):
-        hint = self.kind_hints.get((self.cur_func_name, getattr(node, "lineno", None)))
+        hint = self.kind_hints.get((self.cur_func_name, getattr(node, "lineno", None))) or \
+            (self.kind_hints.get((self.cur_func_name, "[]")) if not vs else None)
         if hint:
             return parse_kind(hint).elem
         if vs:
